@@ -48,9 +48,16 @@ def groups(tier):
 # grammar
 # ------------------------------------------------------------------------------------------
 def gen_lin(rng, typ, vector, depth):
-    """random lin AST of tensor type typ in {'s','v','m'} for a scalar (vector=False) or vector field"""
+    """random lin AST of tensor type typ in {'s','v','m'} for a scalar (vector=False), a vector
+    field with dof_n == dim (vector=True) or with dof_n != dim (vector='rect': the gradient is a
+    dim x dof_n matrix, so no transpose / trace / symmetric part)"""
     opts = []
-    if not vector:
+    if vector == "rect":
+        if typ == "v":
+            opts = ["Val"]
+        elif typ == "m":
+            opts = ["Grad"] + (["Add"] if depth > 0 else [])
+    elif not vector:
         if typ == "s":
             opts = ["Val", "Dir"]
         elif typ == "v":
@@ -87,7 +94,7 @@ def gen_lin(rng, typ, vector, depth):
 def gen_form(rng, vector, depth):
     k = rng.choice(["Contr", "Contr", "Contr", "FScale", "FAdd"]) if depth > 0 else "Contr"
     if k == "Contr":
-        types = ["v", "m", "s"] if vector else ["s", "v"]
+        types = ["v", "m"] if vector == "rect" else ["v", "m", "s"] if vector else ["s", "v"]
         rng.shuffle(types)
         for t in types:
             a, b = gen_lin(rng, t, vector, depth), gen_lin(rng, t, vector, depth)
@@ -160,7 +167,7 @@ class Data:
         self.dN = np.asarray(g.Get_dN_e_pg(matrixType))                     # (Ne, nPg, dim, nPe)
         self.w = np.asarray(g.Get_weightedJacobian_e_pg(matrixType))        # (Ne, nPg)
         self.Ne, self.nPg, self.dim, self.nPe = self.dN.shape
-        self.n = self.dim
+        self.n = max(self.dim, dof_n)
         self.dof_n = dof_n
         coords = np.asarray(g.Get_GaussCoordinates_e_pg(matrixType))
         self.coefs = {"cx": 1.0 + 0.5 * coords[..., 0], "cy": 2.0 - 0.25 * coords[..., 1], "c2": np.full((self.Ne, self.nPg), 1.5)}
@@ -287,12 +294,13 @@ def uses_val(t):
 
 
 # ------------------------------------------------------------------------------------------
-def case_random_form(gname, mesh, vector, seed, idx, depth):
+def case_random_form(gname, mesh, vector, seed, idx, depth, dof_n=None):
     from EasyFEA.FEM import Field, BiLinearForm, MatrixType, FeArray
-    rng = random.Random("%s|%s|%d|%d" % (gname, vector, seed, idx))
+    rng = random.Random("%s|%s|%d|%d|%s" % (gname, vector, seed, idx, dof_n))
     g = mesh.groupElem
     dim = g.dim
-    dof_n = dim if vector else 1
+    if dof_n is None:
+        dof_n = dim if vector else 1
     mt = rng.choice([MatrixType.rigi, MatrixType.mass])
     ast_ = gen_form(rng, vector, depth)
     D = Data(g, dof_n, mt)
@@ -300,7 +308,7 @@ def case_random_form(gname, mesh, vector, seed, idx, depth):
     form = BiLinearForm(closure_form(ast_, coefs, dim))
     field = Field(g, dof_n, mt)
     recs = []
-    cid = "form:%s:%s:%d" % (gname, "vec" if vector else "sca", idx)
+    cid = "form:%s:%s:%d" % (gname, ("dof%d" % dof_n) if vector == "rect" else "vec" if vector else "sca", idx)
     desc = show(ast_)
     tag = "vector-val" if (vector and uses_val(ast_)) else "generic"
     try:
@@ -606,6 +614,119 @@ def case_simulations_F(seed):
     return recs
 
 
+def surface_mesh_3d():
+    """TRI3 surface group embedded in 3-D (dim 2, inDim 3), dyadic coordinates"""
+    from corr import c16_impl as M
+    return M._mesh([("TRI3", [[0, 1, 2], [1, 3, 2], [1, 4, 3]])], [[0, 0, 0], [2, 0, 0.5], [0, 2, 1], [2, 2, 1.5], [4, 1, 0.25]])
+
+
+def case_rect_fields(gname, mesh, seed, nform, depth):
+    """fields whose number of components differs from the dimension of the group"""
+    from EasyFEA.FEM import Field, BiLinearForm, MatrixType
+    from EasyFEA.FEM.Operators import Bilinear
+    recs = []
+    g = mesh.groupElem
+    for dof_n in range(2, g.inDim + 1):
+        if dof_n == g.dim:
+            continue
+        # grad(u):grad(v) = GradUGradV in every component
+        cid = "builtin:%s:gradgrad(dof_n=%d)" % (gname, dof_n)
+        try:
+            f = Field(g, dof_n, MatrixType.rigi)
+            Ke = np.asarray(BiLinearForm(lambda u, v: u.grad.ddot(v.grad)).Integrate_e(f))
+            G = np.asarray(Bilinear.GradUGradV(g, 1.0, MatrixType.rigi))
+            ref = np.zeros_like(Ke)
+            for d in range(dof_n):
+                ref[:, d::dof_n, d::dof_n] = G
+            ok, det = close(Ke, ref)
+            recs.append({"id": cid, "what": "grad(u):grad(v) = GradUGradV per component", "ok": ok, "detail": det, "form": "<grad(u)|grad(v)>_m, dof_n=%d on a %d-D group in %d-D" % (dof_n, g.dim, g.inDim), "kind": "builtin", "tag": "generic"})
+        except Exception as ex:
+            recs.append({"id": cid, "what": "grad(u):grad(v) = GradUGradV per component", "ok": False, "detail": "%s: %s" % (type(ex).__name__, str(ex)[:200]), "form": "dof_n=%d" % dof_n, "kind": "raises", "tag": "generic"})
+        for i in range(nform):
+            recs += case_random_form(gname, mesh, "rect", seed, i, depth, dof_n=dof_n)
+    return recs
+
+
+def case_shared_forms(seed, tier):
+    """one BiLinearForm OBJECT handed to several roles (K/C/M in all pairings), thickness in
+    {0.25, 1, 2}: every assembled matrix = thickness x built-in operator, idempotent under
+    repeated assembly; damped dynamics with C = M (same object) vs the dedicated simulation"""
+    from EasyFEA import Models, Simulations, ElemType, SolverType
+    from EasyFEA.FEM import Field, BiLinearForm, Sym_Grad, Trace
+    from EasyFEA.FEM.Operators import Bilinear
+    from EasyFEA.Geoms import Domain
+    recs = []
+
+    def rec(name, ok, d, tag="generic"):
+        recs.append({"id": "shared:%s" % name, "what": name, "ok": bool(ok), "detail": d, "form": name, "kind": "simulation", "tag": tag})
+    mesh = Domain((0, 0), (1, 1), 0.5).Mesh_2D([], ElemType.TRI6, isOrganised=True)
+    g = mesh.groupElem
+    k, c = 3.0, 2.0
+    for thickness in (0.25, 1.0, 2.0):
+        for roles in ("K=C", "C=M", "K=M", "K=C=M", "distinct"):
+            name = "t=%g:%s" % (thickness, roles)
+            try:
+                field = Field(g, 1)
+                mt = field.matrixType
+                gg = BiLinearForm(lambda u, v: k * u.grad.dot(v.grad))
+                mm = BiLinearForm(lambda u, v: c * u.dot(v))
+                mm2 = BiLinearForm(lambda u, v: c * u.dot(v))
+                fK, fC, fM = {"K=C": (gg, gg, mm), "C=M": (gg, mm, mm), "K=M": (mm, gg, mm), "K=C=M": (mm, mm, mm), "distinct": (gg, mm, mm2)}[roles]
+                ws = Simulations.WeakForms(mesh, Models.WeakForms(field, fK, fC, fM, thickness=thickness))
+                refs = {id(gg): scatter(g, 1, thickness * np.asarray(Bilinear.GradUGradV(g, k, mt))),
+                        id(mm): scatter(g, 1, thickness * np.asarray(Bilinear.UV(g, c, 1, mt)))}
+                refs[id(mm2)] = refs[id(mm)]
+                for rep in (1, 2):
+                    K, C, M, _ = ws.Get_K_C_M_F()
+                    for lab, mat, frm in (("K", K, fK), ("C", C, fC), ("M", M, fM)):
+                        rec("%s:%s=t*builtin(call %d)" % (name, lab, rep), *close(mat.toarray(), refs[id(frm)]))
+                    ws.Need_Update()       # force a second assembly: must give the same matrices
+            except Exception:
+                rec(name, False, traceback.format_exc()[-500:])
+    # damped elastodynamics, C = M given as ONE form object
+    for thickness in ((0.25,) if tier == "quick" else (0.25, 2.0)):
+        name = "t=%g:elastic-dynamic:C=M-same-object" % thickness
+        try:
+            mat = Models.Elastic.Isotropic(2, E=8.0, v=0.25, planeStress=True, thickness=thickness)
+            lam, mu, rho = mat.get_lambda(), mat.get_mu(), 2.0
+            n0 = mesh.Nodes_Conditions(lambda x, y, z: x == 0)
+            n1 = mesh.Nodes_Conditions(lambda x, y, z: x == 1)
+            es = Simulations.Elastic(mesh, mat)
+            es.rho = rho
+            es.Set_Rayleigh_Damping_Coefs(coefM=1.0, coefK=0.0)
+            field2 = Field(g, 2)
+
+            def Kf(u, v):
+                Eps = Sym_Grad(u)
+                return (2 * mu * Eps + lam * Trace(Eps) * np.eye(2)).ddot(Sym_Grad(v))
+            massForm = BiLinearForm(lambda u, v: rho * u.dot(v))
+            ws = Simulations.WeakForms(mesh, Models.WeakForms(field2, BiLinearForm(Kf), massForm, massForm, thickness=thickness))
+            Ke, Ce, Me, _ = es.Get_K_C_M_F()
+            Kw, Cw, Mw, _ = ws.Get_K_C_M_F()
+            rec(name + ":K", *close(Kw.toarray(), Ke.toarray()))
+            rec(name + ":C", *close(Cw.toarray(), Ce.toarray()), tag="vector-val")
+            rec(name + ":M", *close(Mw.toarray(), Me.toarray()), tag="vector-val")
+            hist = []
+            for s_, unk in ((es, ["x", "y"]), (ws, ["x", "y"])):
+                s_.solver = SolverType.scipy
+                s_.add_dirichlet(n0, [0, 0], unk)
+                s_.add_dirichlet(n1, [-0.125], ["y"])
+                s_.Solve()
+                s_.Solver_Set_Hyperbolic_Algorithm(dt=0.125)
+                s_.Bc_Init()
+                s_.add_dirichlet(n0, [0, 0], unk)
+                h = []
+                for _ in range(3):
+                    s_.Solve()
+                    pb = s_.problemType
+                    h.append(np.concatenate([s_._Get_u_n(pb), s_._Get_v_n(pb), s_._Get_a_n(pb)]).copy())
+                hist.append(np.array(h))
+            rec(name + ":3-steps(u,v,a)", *close(hist[1], hist[0], tol=1e-9), tag="vector-val")
+        except Exception:
+            rec(name, False, traceback.format_exc()[-500:])
+    return recs
+
+
 def run(seed, tier, only=None):
     cases = []
     nform = 4 if tier == "quick" else 14
@@ -620,6 +741,13 @@ def run(seed, tier, only=None):
             cases.append({"id": "group:%s" % gname, "what": "harness", "ok": False, "detail": traceback.format_exc()[-800:], "form": "", "kind": "harness", "tag": "generic"})
     cases += case_simulations(seed)
     cases += case_simulations_F(seed)
+    cases += case_shared_forms(seed, tier)
+    rect = [(gn, m) for gn, m in groups(tier) if gn in ("TETRA4", "HEXA8-skew", "PRISM6")] + [("TRI3-surf3d", surface_mesh_3d())]
+    for gname, mesh in rect:
+        try:
+            cases += case_rect_fields(gname, mesh, seed, 2 if tier == "quick" else 6, depth)
+        except Exception:
+            cases.append({"id": "rect:%s" % gname, "what": "harness", "ok": False, "detail": traceback.format_exc()[-800:], "form": "", "kind": "harness", "tag": "generic"})
     from corr import c16_impl as M
     from EasyFEA import ElemType
     from EasyFEA.Geoms import Domain
